@@ -308,7 +308,8 @@ def _fit_check(cfg):
     g_x0, g_y0 = geo.x0, geo.y0
     ell = Ellipse(img, geo)
     kw = dict(step=cfg['step'], minsma=cfg['minsma'], maxsma=cfg['maxsma'],
-              linear=cfg['linear'], fix_center=cfg['fix'] == 'center',
+              linear=cfg['linear'], maxrit=cfg.get('maxrit'),
+              fix_center=cfg['fix'] == 'center',
               fix_pa=cfg['fix'] == 'pa', fix_eps=cfg['fix'] == 'eps')
     with warnings.catch_warnings():
         warnings.simplefilter('ignore')
@@ -408,7 +409,8 @@ def _run_fit(case):
                    maxsma=case.get('maxsma', 24.0),
                    dx=ctx.choice('dx', [0.0, 0.4]),
                    twice=case.get('twice', False),
-                   model=case.get('model', False))
+                   model=case.get('model', False),
+                   maxrit=ctx.choice('maxrit', case.get('maxrit', [None])))
         cfg['step'] = 1.5 if cfg['linear'] else 0.2
         ctx.stats.obligations += 1
         cnt['n'] += 1
@@ -449,6 +451,9 @@ def cases(tier, seed):
         cs.append(dict(kind='fit', name=f'fit-{fr}', frame=fr))
     cs.append(dict(kind='fit', name='fit-square-fix', frame='square',
                    fix=['center', 'pa', 'eps']))
+    # non-iterative outer isophotes (maxrit < maxsma) before the inward pass
+    cs.append(dict(kind='fit', name='fit-square-fix-maxrit', frame='square',
+                   fix=['center', 'pa', 'eps'], maxrit=[12.0, 17.0]))
     cs.append(dict(kind='fit', name='fit-square-minsma0-model',
                    frame='square', minsma=[0.0, 3.0], model=True))
     cs.append(dict(kind='fit', name='fit-wide-twice', frame='wide',
